@@ -84,8 +84,8 @@ func decodeCode(r *bytes.Reader, codeSectionStart uint64, ret *wasm.Code) (err e
 	}
 
 	bodyOffsetInCodeSection := codeSectionStart - uint64(r.Len())
-	body := make([]byte, remaining)
-	if _, err = io.ReadFull(r, body); err != nil {
+	body, err := readBytes(r, uint32(remaining)) // remaining is in [0, ss]
+	if err != nil {
 		return fmt.Errorf("read body: %w", err)
 	}
 
